@@ -277,7 +277,7 @@ func Draw(t *rapid.T, m *Machine, o Opts) Step {
 		}
 	case "parse", "setstring", "unmarshaltext", "scan":
 		if rapid.IntRange(0, 4).Draw(t, "lit.cls") == 0 {
-			s.S = rapid.SampledFrom([]string{"Inf", "-Inf", "+inf", "0x1.8p3", "0b1011e2", "0o17", "1_000.5e-3", "0x_Ap-2", ".5", "5.", "1e", "_1", "1__0", "0x", "", "-", "1e99999999999", "1e-2147483648", "9e2147483646", "0.1e2147483647", "0x1p-1074", "0b.1p-10"}).Draw(t, "lit.fixed")
+			s.S = rapid.SampledFrom([]string{"Inf", "-Inf", "+inf", "0x1.8p3", "0b1011e2", "0o17", "1_000.5e-3", "0x_Ap-2", ".5", "5.", "1e", "_1", "1__0", "0x", "", "-", "1e99999999999", "1e-2147483648", "9e2147483646", "0.1e2147483647", "0x1p-1074", "0b.1p-10", "<nil>", "NaN", "null", "--Inf"}).Draw(t, "lit.fixed")
 		} else {
 			s.S = h.GenDecLiteral(t, "lit", 80, true).S
 		}
